@@ -61,6 +61,57 @@ theorem frozen_mutation_rejected (ops : List Op) (hm : Op.mutate true ∈ ops) :
       · exact ih e s1 s' hr
     · cases hr
 
+/-- **C22 (frozen, any depth)**: frozen-ness is inherited by every object derived from an argument, at
+    every nesting depth and through tuples, structs and arrays: whatever mutable container a path reaches
+    inside the unpacked argument carries exactly the argument's flag. -/
+theorem frozen_inherited_at_any_depth (f : Bool) (s : Shape) (path : List Step) (b : Bool)
+    (h : ((unpack f s).at path).bind Val.containerFlag = some b) : b = f := by
+  induction s generalizing path with
+  | leaf =>
+    cases path with
+    | nil => simp [unpack, Val.at, Val.containerFlag] at h
+    | cons st p => cases st <;> simp [unpack, Val.at, Val.get] at h
+  | arr e ih =>
+    cases path with
+    | nil => simp [unpack, Val.at, Val.containerFlag] at h; exact h.symm
+    | cons st p =>
+      cases st <;> simp only [unpack, Val.at, Val.get] at h
+      · exact ih p h
+      · simp at h
+      · simp at h
+  | struct a c iha ihc =>
+    cases path with
+    | nil => simp [unpack, Val.at, Val.containerFlag] at h; exact h.symm
+    | cons st p =>
+      cases st <;> simp only [unpack, Val.at, Val.get] at h
+      · simp at h
+      · exact iha p h
+      · exact ihc p h
+  | tuple a c iha ihc =>
+    cases path with
+    | nil => simp [unpack, Val.at, Val.containerFlag] at h
+    | cons st p =>
+      cases st <;> simp only [unpack, Val.at, Val.get] at h
+      · simp at h
+      · exact iha p h
+      · exact ihc p h
+
+/-- …so every in-place mutation of anything derived from an owned (non-borrowed) argument is rejected, and
+    none derived from a borrowed argument is. -/
+theorem nested_mutation_of_owned_rejected (s : Shape) (path : List Step) (b : Bool)
+    (h : ((unpack true s).at path).bind Val.containerFlag = some b) :
+    mutateAt (unpack true s) path = .error .frozen := by
+  have := frozen_inherited_at_any_depth true s path b h
+  subst this
+  simp [mutateAt, h]
+
+theorem nested_mutation_of_borrowed_accepted (s : Shape) (path : List Step) (b : Bool)
+    (h : ((unpack false s).at path).bind Val.containerFlag = some b) :
+    mutateAt (unpack false s) path = .ok () := by
+  have := frozen_inherited_at_any_depth false s path b h
+  subst this
+  simp [mutateAt, h]
+
 /-- **C22 (frozenlist)**: `frozenlist` derives from `list` and overrides every mutating method of
     CPython 3.12's `list` with a body that only raises `GuppyComptimeError` (`decide` over the table
     regenerated from tracing/frozenlist.py; the domain is this finite table). -/
@@ -83,6 +134,9 @@ example : trace [.create false false, .use 0, .borrow 0] = .error .alreadyUsed :
 example : trace [.create false false, .create true true, .use 1, .use 1] = .error .leaked := rfl
 example : trace [.create false false, .mutate true, .use 0] = .error .frozen := rfl
 example : trace [.create true false, .use 0, .use 0] = .ok () := rfl
+-- array of structs of arrays, mutation three levels down (`xs[0].b[1] = …`)
+example : mutateAt (unpack true (.arr (.struct .leaf (.arr .leaf)))) [.elem, .snd] = .error .frozen := rfl
+example : mutateAt (unpack false (.arr (.tuple (.arr .leaf) .leaf))) [.elem, .fst] = .ok () := rfl
 example : ∃ s, run State.empty [.create false false, .borrow 0] = .ok s ∧ ∃ id, Leaky s id :=
   ⟨_, rfl, 0, _, rfl, rfl, rfl⟩
 
